@@ -858,7 +858,8 @@ static Type check_expression_impl(ASTNode *expr, Environment *env) {
                 /* Enums are compatible with ints in arithmetic */
                 if ((left == TYPE_INT || left == TYPE_ENUM || left == TYPE_U8) &&
                     (right == TYPE_INT || right == TYPE_ENUM || right == TYPE_U8)) return TYPE_INT;
-                if (left == TYPE_FLOAT && right == TYPE_FLOAT) return TYPE_FLOAT;
+                /* % is (int, int) -> int only (spec 4.4); neither backend implements it on floats */
+                if (left == TYPE_FLOAT && right == TYPE_FLOAT && op != TOKEN_PERCENT) return TYPE_FLOAT;
 
                 char message[256];
                 snprintf(message, sizeof(message),
